@@ -163,6 +163,38 @@ def eval_cli_cases(ctx, texts, shards=8):
     return codes
 
 
+def g_doc_case(rec):
+    """CorrDoc.simple_doc_case: instance and the whole output document"""
+    import cde
+    m = rec["meta"]
+    return "(%s, %s, %s)" % (m["g_courses"], m["g_parts"], cde.coq(rec["out_doc"]))
+
+
+def eval_doc_cases(ctx, texts, shards=8):
+    d = os.path.join(ctx.work, "cli")
+    paths = []
+    for si in range(shards):
+        ch = texts[si::shards]
+        if not ch:
+            continue
+        p = os.path.join(d, "cases_clidoc_%02d.v" % si)
+        with open(p, "w", encoding="utf-8") as f:
+            f.write("From Coq Require Import List NArith ZArith String.\nImport ListNotations.\nRequire Import Json CorrNode CorrDoc.\n"
+                    "Open Scope string_scope.\nOpen Scope list_scope.\n")
+            f.write("Definition cases : list simple_doc_case := [\n  " + ";\n  ".join(ch) + "\n].\nEval vm_compute in map check_simple_doc cases.\n")
+        paths.append((si, p))
+    res = vlib.run_shards([p for _, p in paths])
+    codes = [None] * len(texts)
+    for (si, _), blk in zip(paths, res):
+        flat = [c for b in blk for c in b]
+        idxs = list(range(si, len(texts), shards))
+        if len(flat) != len(idxs):
+            raise RuntimeError("cli doc case count mismatch")
+        for i, c in zip(idxs, flat):
+            codes[i] = c
+    return codes
+
+
 def g_text_case(rec):
     """CorrCliText.text_case of a --print run: instance, input document, rooms argument, assignment of the output file, stdout"""
     import cde
@@ -286,6 +318,10 @@ def run_cli_matrix(ctx, binpath, metas, variants, jobs=16):
                "rooms_arg": rooms_arg}
         if outp and os.path.exists(outp):
             rec["out"] = parse_output_file(outp)
+            try:
+                rec["out_doc"] = json.load(open(outp, encoding="utf-8"))
+            except Exception:
+                rec["out_doc"] = None
         if v.get("print") and r["rc"] == 0:
             pl = parse_listing(r["stdout"], m)
             if isinstance(pl, str):
